@@ -1,4 +1,5 @@
 import RsMatterVerif.Lemmas.Tlv
+import RsMatterVerif.Lemmas.TlvRound
 /-!
 # C16 — the TLV codec round-trips every value and rejects every malformed input safely
 
@@ -168,5 +169,94 @@ theorem container_within (bs seq : Bytes) (h : containerOf bs = .ok seq) : seq <
   · simp at h2
 
 example : containerOf [0x15, 0x24, 0x01, 0x05, 0x18] = .ok [0x24, 0x01, 0x05, 0x18] := by decide
+
+/-! ## 5. every written value tree decodes back to an equal tree -/
+
+/-- **Round trip.**  For every tree of TLV elements `v` that the writer API can be called with
+(`v.wf`: tag and integer values in the range of their Rust type, string lengths within their
+length-field width, UTF-8 strings valid), of any nesting depth `≤ d` and an encoding shorter than
+`usize::MAX`, the bytes the writer produces (`encode v` = `TLVWrite::tlv` / `start_*` /
+`end_container`), followed by arbitrary bytes, decode back — with the reader's public accessors
+`tag()`, `value()`, `container()?.iter()` — to exactly `v`. -/
+theorem decode_encode (v : Value) (d : Nat) (rest : Bytes) (hw : v.wf)
+    (hl : (encode v).length + 1 < USIZE) (hd : v.depth ≤ d) :
+    decodeTree d (encode v ++ rest) = .ok v :=
+  decodeTree_encode v d rest hw hl hd
+
+/-- … in particular for the exact output of the writer -/
+theorem decode_encode_exact (v : Value) (hw : v.wf) (hl : (encode v).length + 1 < USIZE) :
+    decodeTree v.depth (encode v) = .ok v := by
+  have := decode_encode v v.depth [] hw hl (Nat.le_refl _)
+  simpa using this
+
+-- the hypotheses are satisfiable (nested containers, every tag form, extremes of the widths)
+example :
+    let v : Value := .cont .anon .struct (.cons (.leaf (.ctx 255) (.sint .w8 (-9223372036854775808)))
+      (.cons (.cont (.fullQual64 65535 65535 4294967295) .list (.cons (.leaf .anon (.utf8 .w2 [0xc3, 0xa9])) .nil))
+      (.cons (.leaf (.implPrf32 7) (.str .w8 [1, 2, 3])) .nil)))
+    v.wf ∧ (encode v).length + 1 < USIZE ∧ decodeTree 3 (encode v) = .ok v := by
+  refine ⟨by simp [Value.wf, Values.wf, Tag.wf, Prim.wf, Width.bytes]; decide, by decide, by decide⟩
+
+/-- skipping (`container_next`, the iterator's advance) passes over exactly one written element -/
+theorem skip_encode (v : Value) (rest : Bytes) (hw : v.wf) (hd : v.depth + 1 < USIZE) :
+    containerNext (encode v ++ rest) = .ok rest :=
+  containerNext_encode v rest hw hd
+
+/-- iterating over the content of a written container yields its children, in order, and stops
+at the end marker -/
+theorem iter_encode (t : Tag) (k : Kind) (cs : Values) (rest : Bytes) (hw : cs.wf) (hd : cs.depth + 1 < USIZE) :
+    containerOf (encode (.cont t k cs) ++ rest) = .ok (encodes cs ++ endByte :: rest) ∧
+    elements (encodes cs ++ endByte :: rest) = (childSuffixes cs rest).map .ok :=
+  ⟨containerOf_cont t k cs rest, elements_encodes cs rest hw hd⟩
+
+/-- typed accessors: an integer written with **any** width is read back by the widest accessor
+(the reader's `u64 → u32 → u16 → u8` / `i64 → … → i8` chains), strings by `str`/`octets`/`utf8`,
+booleans and null by `bool`/`null` -/
+theorem typed_roundtrip (t : Tag) (rest : Bytes) :
+    (∀ w n, (Prim.uint w n).wf → u64 (encode (.leaf t (.uint w n)) ++ rest) = .ok n) ∧
+    (∀ w i, (Prim.sint w i).wf → i64 (encode (.leaf t (.sint w i)) ++ rest) = .ok i) ∧
+    (∀ w b, (Prim.str w b).wf → strOf (encode (.leaf t (.str w b)) ++ rest) = .ok b ∧
+                                 octetsOf (encode (.leaf t (.str w b)) ++ rest) = .ok b) ∧
+    (∀ w b, (Prim.utf8 w b).wf → utf8Of (encode (.leaf t (.utf8 w b)) ++ rest) = .ok b) ∧
+    (∀ b, boolOf (encode (.leaf t (.bool b)) ++ rest) = .ok b) ∧
+    nullOf (encode (.leaf t .null) ++ rest) = .ok () :=
+  ⟨fun w n h => u64_uint t w n rest h, fun w i h => i64_sint t w i rest h,
+   fun w b h => str_roundtrip t w b rest h, fun w b h => utf8_roundtrip t w b rest h,
+   fun b => (bool_null_roundtrip t b rest).1, (bool_null_roundtrip t true rest).2⟩
+
+/-- the writer methods that choose the width themselves (`u16/u32/u64`, `i16/i32/i64`, `str`,
+`utf8`) always produce a well-formed primitive, so the round trip applies to them: the value comes
+back through `u64()` / `i64()` whatever width was chosen -/
+theorem shortest_form_roundtrip (t : Tag) (rest : Bytes) :
+    (∀ n, n < 2 ^ 64 → u64 (encode (.leaf t (Prim.mkUint n)) ++ rest) = .ok n) ∧
+    (∀ i : Int, -(2 ^ 63 : Nat) ≤ i ∧ i < (2 ^ 63 : Nat) → i64 (encode (.leaf t (Prim.mkSint i)) ++ rest) = .ok i) ∧
+    (∀ b : Bytes, b.length < 2 ^ 64 → (Prim.mkStr b).wf) := by
+  refine ⟨fun n h => ?_, fun i h => ?_, fun b h => ?_⟩
+  · obtain ⟨w, hw⟩ := mkUint_eq n
+    have hwf := mkUint_wf n h
+    rw [hw] at hwf ⊢
+    exact u64_uint t w n rest hwf
+  · obtain ⟨w, hw⟩ := mkSint_eq i
+    have hwf := mkSint_wf i h
+    rw [hw] at hwf ⊢
+    exact i64_sint t w i rest hwf
+  · exact lenWidth_fits b.length h
+
+/-! ## 6. re-encoding a decoded element reproduces its bytes -/
+
+/-- **Re-encoding.**  Whenever `elem.to_tlv(&elem.tag()?, ..)` succeeds on an arbitrary non-empty
+input, its output is exactly the first `container_len()` bytes of that input — for well-formed and
+malformed inputs alike (no hypothesis that `bs` was produced by the writer). -/
+theorem reencode_bytes (bs out : Bytes) (hne : bs ≠ []) (hu : bs.length + 1 < USIZE)
+    (h : reencode bs = .ok out) : ∃ n, containerLen bs = .ok n ∧ n ≤ bs.length ∧ out = bs.take n := by
+  obtain ⟨n, h1, h2⟩ := reencode_take bs out hne hu h
+  exact ⟨n, h1, len_within bs n h1, h2⟩
+
+example : reencode [0x15, 0x24, 0x01, 0x05, 0x18, 0xff, 0xff] = .ok [0x15, 0x24, 0x01, 0x05, 0x18] := by decide
+
+/-- on the writer's own output the re-encoding succeeds and gives the written bytes back -/
+example : reencode (encode (.cont .anon .array (.cons (.leaf .anon (.str .w8 [7])) .nil))) =
+    .ok (encode (.cont .anon .array (.cons (.leaf .anon (.str .w8 [7])) .nil))) := by decide
+
 
 end C16
